@@ -20,8 +20,8 @@ import (
 // c07Pattern is one point of the enumerated space.
 type c07Pattern struct {
 	K     int   `json:"k"`
-	Cells []int `json:"cells"` // per entry: auth(2) x tree(3) x skipmode(4) in mixed radix
-	Extra int   `json:"extra"` // 0 none; 1..k+1 policy change before entry (extra-1); k+2..2k+2 attestation entry before entry (extra-k-2)
+	Cells []int `json:"cells"`          // per entry: auth(2) x tree(3) x skipmode(4) in mixed radix
+	Extra int   `json:"extra"`          // 0 none; 1..k+1 policy change before entry (extra-1); k+2..2k+2 attestation entry before entry (extra-k-2)
 	Ref2  []int `json:"ref2,omitempty"` // positions after which an entry for a second ref is interleaved (sampled runs only)
 }
 
@@ -131,7 +131,7 @@ func runC07(t *testing.T, s *kit.Session, p c07Pattern) *kit.Failure {
 	if err != nil {
 		return &kit.Failure{Cause: "harness", Msg: "world does not build: " + err.Error()}
 	}
-	m := &kit.Model{W: &w, Opts: kit.ModelOptions{PropagationUnverified: true}}
+	m := &kit.Model{W: &w, Opts: kit.ModelOptions{}}
 	check := func(b *kit.Built) *kit.Failure {
 		refs := []string{"refs/heads/main"}
 		if len(p.Ref2) > 0 {
